@@ -31,7 +31,7 @@ EXHAUSTIVE = {"quick": ["suspension injection point: every tick of each generate
 NSHARDS = {"quick": 16, "thorough": 16}
 N_SCEN = {"quick": 45, "thorough": 4500}
 N_MIX = {"quick": 60, "thorough": 6000}
-REQUIRE = {"inject:accepted": 300, "inject:refused": 1000, "suspend_one_tick": 50, "suspend_multi_tick": 50,
+REQUIRE = {"scale:script_of_more_than_4096_ticks": 1, "inject:accepted": 300, "inject:refused": 1000, "suspend_one_tick": 50, "suspend_multi_tick": 50,
            "suspension_finished": 300, "resumed_and_finished": 100, "rejected:suspend-not-running": 20,
            "scenarios_fully_enumerated": 100}
 
